@@ -215,9 +215,11 @@ func c14Classes(dom []octosql.Value) []int {
 	return cls
 }
 
-// all valid histories of length 1..maxLen over dom
+// all valid histories of length 1..maxLen over dom, shortest first (so that the first failing line is a shortest witness)
 func c14Enumerate(w *bufio.Writer, op string, d c14Desc, dom []octosql.Value, maxLen int) {
-	c14EnumerateFrom(w, op, d, dom, 1, maxLen)
+	for l := 1; l <= maxLen; l++ {
+		c14EnumerateFrom(w, op, d, dom, l, l)
+	}
 }
 
 // all valid histories of length minLen..maxLen over dom
